@@ -143,6 +143,9 @@ def make_tool_replay(pid, signature, what, inputs, run_src, expected, extra=None
     from harness import common
     from model import plotfile
     d = common.replay_dir(pid, signature)
+    if val is None and ('does not parse' in what or 'min/max' in what):
+        # a complaint about the text of a min / max entry: the payload gets the widest texts there are
+        val = common.Valuation(wide_text=True)
     val = val or common.Valuation()
     for name, (fs, path) in inputs.items():
         plotfile.write_real_tree(fs, path, os.path.join(d, name), val)
@@ -274,9 +277,14 @@ def read_real_plotfile(path):
         finest = int(next(it))
         P['lo'] = [float(x) for x in next(it).split()]
         P['hi'] = [float(x) for x in next(it).split()]
-        next(it)
+        ratios = next(it).split()
         dom = next(it).split()
         P['ncell'] = [[h - l + 1 for l, h in zip(_ints(dom[i]), _ints(dom[i + 1]))] for i in range(0, len(dom), 3)]
+        if len(ratios) < finest or len(P['ncell']) < finest + 1:
+            raise RealReadError('Header lists %d refinement ratios and %d domains for finest level %d' % (len(ratios), len(P['ncell']), finest))
+        for l in range(finest):
+            if any(int(ratios[l]) * a != b for a, b in zip(P['ncell'][l], P['ncell'][l + 1])):
+                raise RealReadError('refinement ratio %s between levels %d and %d does not match the domains' % (ratios[l], l, l + 1))
         next(it)
         P['dx'] = [[float(x) for x in next(it).split()] for _ in range(finest + 1)]
         next(it)
@@ -918,15 +926,22 @@ def replay_c18(d, case):
             except Exception:
                 return True, 'printed %r' % out
             return (got != case['time']), 'printed time %r, header time %r' % (got, case['time'])
-        if tool == 'marinate':
+        if tool.split('/')[0] == 'marinate':
             from amr_kitchen import marinate, PlotfileCooker
-            sys.argv = ['marinate', 'plt']
+            name = tool.split('/', 1)[1] if '/' in tool else 'plt'
+            if name != 'plt':
+                import shutil
+                shutil.rmtree(name, ignore_errors=True)
+                shutil.copytree('plt', name)
+            if os.path.exists(name + '.pkl'):
+                os.remove(name + '.pkl')
+            sys.argv = ['marinate', name]
             with contextlib.redirect_stdout(buf), contextlib.redirect_stderr(io.StringIO()):
                 marinate.main()
-            if not os.path.exists('plt.pkl'):
-                return True, 'no plt.pkl written'
-            pck2 = pickle.load(open('plt.pkl', 'rb'))
-            pck = PlotfileCooker('plt', maxmins=True)
+            if not os.path.exists(name + '.pkl'):
+                return True, 'no %s.pkl written' % name
+            pck2 = pickle.load(open(name + '.pkl', 'rb'))
+            pck = PlotfileCooker(name, maxmins=True)
             for attr in ('fields', 'ndims', 'time', 'limit_level', 'geo_low', 'geo_high', 'dx', 'boxes'):
                 if repr(getattr(pck, attr)) != repr(getattr(pck2, attr, None)):
                     return True, 'unpickled %s differs' % attr
